@@ -157,7 +157,7 @@ Definition ex_batches : list (nat * list rawchange) :=
     (6%nat, [ch 102 [101] 3 4]);                 (* demoted writer citing the record that demoted it: rejected *)
     (6%nat, [ch 103 [101] 2 4]);                 (* demoted writer citing record 2 under a parent citing 2: attached *)
     (6%nat, [ch 104 [101] 4 5]);                 (* removed writer citing the removal: rejected *)
-    (6%nat, [ch 105 [101] 2 6]);                 (* re-added writer citing its FIRST membership: history replaced, None: rejected *)
+    (6%nat, [ch 105 [101] 2 6]);                 (* re-added writer citing its FIRST membership: history kept (F35 repair): attached *)
     (6%nat, [ch 106 [101] 6 6]);                 (* re-added writer citing the re-add: attached *)
     (6%nat, [ch 107 [106] 2 2]);                 (* ACL head older than the parent's: rejected *)
     (6%nat, [ch 108 [101] 3 7]);                 (* never a member: rejected *)
@@ -171,7 +171,7 @@ Definition ex_scen : scenario :=
 
 Example c02_nonvacuous :
   map (fun d => (d_eclass d, d_added d)) (sc_dels (model_scenario ex_scen)) =
-  [(0, [101]); (2, []); (0, [103]); (2, []); (2, []); (0, [106]); (2, []); (2, []); (2, []); (1, [])].
+  [(0, [101]); (2, []); (0, [103]); (2, []); (0, [105]); (0, [106]); (2, []); (2, []); (2, []); (1, [])].
 Proof. vm_compute. reflexivity. Qed.
 
 Example c02_model_satisfies_spec_example : spec_C02 (model_scenario ex_scen) = true.
@@ -209,8 +209,9 @@ Example c02_inconsistent_flags_refuted :
   scenario_wf ex_inconsistent_scen = false /\ spec_C02 (model_scenario ex_inconsistent_scen) = false.
 Proof. vm_compute. split; reflexivity. Qed.
 
-(* the hypotheses of c02_closest_sound / c02_accepted_author_could_write are satisfiable, and the answer really is
-   below the truth after a re-add: account 6 was a writer at record 2 (truth), closest answers None *)
+(* the hypotheses of c02_closest_sound / c02_accepted_author_could_write are satisfiable: account 6 was a writer at
+   record 2, removed at 5 and added again at 6; since the F35 repair (AccountsAdd keeps the earlier permission
+   history) closest answers the truth for record 2 (before the repair it answered None: below the truth) *)
 Example c02_closest_nonvacuous :
   match acl_states 999 1 1 ex_recs with
   | Some sts =>
@@ -218,7 +219,7 @@ Example c02_closest_nonvacuous :
       | Some v => (closest (av_ids v) (a_hist (acc_of (av_state v) 6)) 2,
                    truth_at (acl_ids 1 ex_recs) sts 2 6,
                    closest (av_ids v) (a_hist (acc_of (av_state v) 4)) 2,
-                   closest (av_ids v) (a_hist (acc_of (av_state v) 4)) 3) = (0, Some 3, 3, 4)
+                   closest (av_ids v) (a_hist (acc_of (av_state v) 4)) 3) = (3, Some 3, 3, 4)
       | None => False
       end
   | None => False
